@@ -85,6 +85,34 @@ def cases(tier, rng):
             c.expect = ("rep", req, reply)
             out.append(c)
             n += 1
+    # REP: two requests received in a row (the first one is never answered) — the reply must carry the envelope of
+    # the request being answered, not a stale one
+    for pre1 in prefixes[:6]:
+        for pre2 in prefixes[:6]:
+            for skip in ("recv-again", "malformed-between"):
+                sc = wg.Script()
+                sc.sock(1, "REP")
+                sc.attach(1, 1, "DEALER", b"d1")
+                sc.attach(1, 2, "DEALER" if pre2 else "REQ", b"d2")
+                sc.add("wire 1", "wire 2")
+                req1 = list(pre1) + [b"", b"first"]
+                req2 = list(pre2) + [b"", b"second"]
+                sc.add(f"reveal 1 {wg.wire_tok(req1)}")
+                f = sc.fut()
+                sc.add(f"recv {f} 1", f"poll {f}")
+                if skip == "malformed-between":
+                    sc.add(f"reveal 1 {wg.wire_tok([b'junk'])}")
+                    f = sc.fut()
+                    sc.add(f"recv {f} 1", f"poll {f}")
+                sc.add(f"reveal 2 {wg.wire_tok(req2)}")
+                f = sc.fut()
+                sc.add(f"recv {f} 1", f"poll {f}")
+                g = sc.fut()
+                sc.add(f"send {g} 1 {wg.mtok([b'answer'])}", f"poll {g}", "wire 1", "wire 2")
+                c = sc.case(f"rep-two-requests#{n}", ["rep-unanswered-then-answered"])
+                c.expect = ("rep2", req2, [b"answer"])
+                out.append(c)
+                n += 1
     # REP: degenerate requests
     for pre in prefixes:
         for name, req in [("delimlast", list(pre) + [b""]), ("delimlast2", list(pre) + [b"x", b""]),
@@ -129,6 +157,16 @@ def oracle(case, lines):
     out = dict()
     polls = [l for op, l in zip(case.ops, lines[1:]) if op.startswith("poll")]
     wires = [l for op, l in zip(case.ops, lines[1:]) if op.startswith("wire")]
+    if kind == "rep2":
+        req2, reply = a, b
+        env, data = ref_rep_split(req2)
+        if polls[-2] != f"ready ok M[{wg.show_frames(data)}]":
+            return f"second request not delivered as the frames after its delimiter: {polls[-2][:100]}"
+        want = "wire " + wg.show_wire([env + reply])
+        if polls[-1] != "ready ok" or wires[-1] != want or wires[-2] != "wire .":
+            return (f"reply to the SECOND request is not prefixed with that request's own envelope on its own connection: "
+                    f"{wires[-2][:60]} / {wires[-1][:80]} (want {want[:80]})")
+        return None
     if kind == "req":
         p, reply = a, b
         if polls[1] != "ready ok":
